@@ -208,8 +208,19 @@ def _w_malformed(task):
 # ------------------------------------------------------------------ run
 
 
+def deductive(ctx):
+    """engine D: Submitter.__call__ — combining without splitting ends in an error before any Job is
+    constructed, and the rule check precedes Job construction, on every path"""
+    from contracts import submitter_call as SC
+    from pyvc.verify import verify, summarize
+
+    res = verify(ctx, SC.contract())
+    summarize(ctx, res)
+
+
 def run(ctx):
     try:
+        deductive(ctx)
         _run(ctx)
     finally:
         H.close_pool()
